@@ -78,6 +78,7 @@ type vsRun struct {
 
 	nextCapture int
 	brokenFiles int
+	snapFaults  int
 	mergeFaults int
 	views       [2]*vsView
 	mergesDone  int
@@ -407,9 +408,28 @@ func (r *vsRun) stepImport() {
 		at := rapid.IntRange(0, len(names)).Draw(rt, "brokenpos")
 		names = append(names[:at], append([]string{bn}, names[at:]...)...)
 	}
+	// now and then the snapshot directory is unusable while the import job runs (the job's body runs up to its
+	// gate as soon as it is started): the reassembly snapshot cannot be written, everything else must go on
+	snapFault := rapid.IntRange(0, 9).Draw(rt, "snapfault") == 0
+	if snapFault {
+		if err := os.RemoveAll(r.e.dirs.snapshot); err != nil {
+			r.fatalf("remove snapshot dir: %v", err)
+		}
+		r.snapFaults++
+		r.log("snapshot directory removed")
+	}
 	r.log("import %v", names)
 	r.e.mgr.ImportPcaps(names)
 	r.pendingImports = append(r.pendingImports, idxs)
+	if snapFault {
+		if err := r.e.sync(); err != nil {
+			r.fatalf("%v", err)
+		}
+		if err := os.MkdirAll(r.e.dirs.snapshot, 0o755); err != nil {
+			r.fatalf("restore snapshot dir: %v", err)
+		}
+		r.log("snapshot directory restored")
+	}
 }
 
 func (r *vsRun) apiCall(desc string, f func() error) error {
@@ -1692,6 +1712,7 @@ func vsScenario(rt *rapid.T, c *vlib.Case, t *testing.T, cfg vsConfig, open map[
 	c.LabelIf(r.mergeFaults > 0, "merges-made-to-fail")
 	c.LabelIf(r.brokenFiles > 0, "broken-upload-queued")
 	c.LabelIf(r.tr.Fat, "fat-flow")
+	c.LabelIf(r.snapFaults > 0, "import-with-unusable-snapshot-directory")
 	nontrivial := false
 	switch cfg.focus {
 	case "C06":
